@@ -30,7 +30,7 @@ def check(run):
     for j in rjobs: rtexts[j["eco"]].append(j["text"])
     for v in shvecs: rtexts[v["eco"]].append(v["text"])
     jobs = []
-    nv, nr, npad = (60, 40, 12) if quick else (400, 250, 60)
+    nv, nr, npad = (60, 40, 12) if quick else (1200, 600, 60)
     for e in ECOS:
         accset = set(acc[e])
         rej = [t for t, _ in U[e] if t not in accset]
